@@ -215,6 +215,7 @@ def emit_serde_arb(d: Decl):
         methods.append("fn ser(&self, f: nvrt::Fmt, raw: &nvrt::Value) -> Option<nvrt::SerObs> { nvrt::serde_mon::ser::<G>(f, raw) }")
         methods.append("fn ser_trace(&self, raw: &nvrt::Value) -> Option<(Vec<String>, Vec<String>)> { nvrt::serde_mon::trace::<G>(raw) }")
         methods.append("fn de_probe(&self) -> Option<(Vec<String>, Vec<(String, nvrt::Value)>)> { Some(nvrt::serde_mon::probe::<G>()) }")
+        methods.append("fn de_in_place(&self, f: nvrt::Fmt, b: &[u8], seed: &nvrt::Value, vec: bool) -> Option<(Result<(), String>, Vec<nvrt::Value>)> { nvrt::serde_mon::de_in_place::<G>(f, b, seed, vec) }")
         if d.inner.fam in ("int", "float", "string"):
             methods.append("fn de_seq_form(&self, raw: &nvrt::Value) -> Option<nvrt::DeObs> { Some(nvrt::serde_mon::seq_form::<G>(raw)) }")
     if "Arbitrary" in der:
